@@ -30,6 +30,19 @@ pub fn in_child<T: Serialize + DeserializeOwned + Send + 'static>(f: impl FnOnce
     if std::env::var("SIM_FORK").is_err() {
         return Ok(on_fresh_thread(f));
     }
+    // fork() in a process with other threads can copy a lock that one of them holds (the idle
+    // debouncer of a watch history keeps a ticker thread for one more tick after it was
+    // dropped): wait until this thread is alone
+    for _ in 0..400 {
+        let alone = std::fs::read_to_string("/proc/self/status")
+            .ok()
+            .and_then(|s| s.lines().find_map(|l| l.strip_prefix("Threads:").map(|n| n.trim() == "1")))
+            .unwrap_or(true);
+        if alone {
+            break;
+        }
+        std::thread::sleep(std::time::Duration::from_millis(5));
+    }
     let mut fds = [0 as libc::c_int; 2];
     if unsafe { libc::pipe(fds.as_mut_ptr()) } != 0 {
         simcore::harness_error("pipe() failed");
